@@ -25,6 +25,7 @@ import (
 func init() {
 	register("C16", runC16)
 	register("devrender", runDevRender)
+	register("devserve", runDevServe)
 }
 
 // c16Fixtures: components rendered both normally and in development mode (child process).
@@ -273,6 +274,9 @@ func runC16(e *emitter, tier string, seed uint64) {
 		e.emit("pair "+x.src+"\x00"+y.src, "pair", fmt.Sprint(changed), hx(x.src), hx(y.src), hx(x.code), hx(y.code))
 	}
 	e.counters["edit-pairs-same-signature"] = pairs
+	// 5. edit sessions through the real FSEventHandler; 6. a long-running development-mode process
+	c16Sessions(e, r, tier, all)
+	c16Live(e, tier)
 }
 
 // c16DevMode writes the development text files with the REAL FSEventHandler (devMode on), renders the fixtures here
